@@ -22,7 +22,7 @@ def cdeep(t):
 def run(chk, tier):
     P = Prog("default")
     chk.configs.add("default")
-    for r in (r_zones, r_year_rule, r_reader_widths, r_writer, r_weekday, r_absint):
+    for r in (r_zones, r_year_rule, r_reader_widths, r_writer, r_weekday, r_absint, r_flow):
         chk.guarded(r, P, tier)
     chk.assume("optional-part acceptance, comments, white-space runs and the values returned (the round trip) are NOT decided")
     return {
@@ -169,6 +169,23 @@ def r_writer(chk, P, tier):
             f = c["fields"]
             ok = ok and f["precision"]["variant"] == "Minutes" and f["colons"]["variant"] == "None" and f["allow_zulu"] is False and f["padding"]["variant"] == "Zero"
     chk.expect(ok, "offset format", "write_rfc2822's OffsetFormat is not {Minutes, no colon, no Z, Zero}", loc=P.loc(WR))
+    # the year field: exactly four digits, written as two zero-padded pairs write_hundreds(year / 100), write_hundreds(year % 100)
+    good = 0
+    total = 0
+    for p in Sym(P, WR).paths():
+        if p.end[0] != "return" or not any(isinstance(c[1], str) and "OffsetFormat>::format" in c[1] for c in p.calls):
+            continue        # complete renderings only (the offset is written last)
+        total += 1
+        ops = set()
+        for c in p.calls:
+            if isinstance(c[1], str) and c[1].endswith("write_hundreds"):
+                for x in walk_terms(c[2][1]):
+                    if x[0] == "bin" and x[1] in ("Div", "Rem") and const_of(x[3]) == 100 and any(is_call(y) and str(y[1]).endswith("::year") for y in walk_terms(x[2])):
+                        ops.add(x[1])
+        if ops == {"Div", "Rem"}:
+            good += 1
+    chk.expect(total > 0 and good == total, "four-digit year", "write_rfc2822 does not write the year as write_hundreds(year / 100) + write_hundreds(year %% 100) on %d of %d complete paths "
+               "(RFC 2822 needs exactly four digits for 0..=9999; the reader decides by the digit count)" % (total - good, total), loc=P.loc(WR))
 
 
 def r_weekday(chk, P, tier):
@@ -184,3 +201,16 @@ def r_absint(chk, P, tier):
     e1.report(chk, P, res, "ABSINT.rfc2822", "reader, zone/comment scanners and writer of RFC 2822 are free of panics and lossy casts (discharged or justified)",
               fn_filter=lambda fn: fn.split("::{")[0] in (PR, WR, TZ2822, "format::scan::comment_2822", "format::scan::short_weekday", "format::scan::short_month0", "format::scan::space",
                                                           "format::formatting::<impl format::OffsetFormat>::format", "format::formatting::write_hundreds"), floor=25)
+
+
+def r_flow(chk, P, tier):
+    """no scanned field is dropped: the value of every value-returning scan call reaches a Parsed setter on every successful path"""
+    from fmt_tables import scanned_value_flow
+    chk.rule("FLOW.scanned", "every value a format::scan function returned Ok for is handed to a Parsed setter on each successful path (no scanned field is silently dropped)", floor=8)
+    for fn in ('format::parse::parse_rfc2822',):
+        rows = scanned_value_flow(P, fn)
+        if not rows:
+            raise AnchorLost("no value-returning scan call found in " + fn)
+        for name, ln, ok, dropped in rows:
+            chk.expect(dropped == 0 and ok > 0, "%s: %s #%d" % (fn.split("::")[-1], name, [r_ for r_ in rows if r_[0] == name].index((name, ln, ok, dropped)) + 1),
+                       "the value scanned by scan::%s (line %s) does not reach a Parsed setter on %d of %d successful paths" % (name, ln, dropped, ok + dropped), loc=P.loc(fn, ln))
